@@ -392,9 +392,10 @@ def shrink(plan_dict: dict, sig: str, max_exec: int = 250, wall_s: float = 60.0)
 
 
 def write_replay(prop: str, sig: str, plan_dict: dict, res: dict, text: str) -> str:
-    os.makedirs(os.path.join(VERIF, "replays"), exist_ok=True)
+    rdir = os.environ.get("SIMRF_REPLAY_DIR") or os.path.join(VERIF, "replays")
+    os.makedirs(rdir, exist_ok=True)
     dig = hashlib.sha256((sig + json.dumps(plan_dict, sort_keys=True)).encode()).hexdigest()[:8]
-    path = os.path.join(VERIF, "replays", f"{prop}-{plan_dict.get('seed', 0)}-{dig}.json")
+    path = os.path.join(rdir, f"{prop}-{plan_dict.get('seed', 0)}-{dig}.json")
     with open(path, "w") as f:
         json.dump({"property": prop, "signature": sig, "violation": text, "plan": plan_dict,
                    "trace_digest": res["digest"], "events_tail": res["events_tail"]}, f, indent=1)
